@@ -724,14 +724,14 @@ example :
     compliant_of_B _ _ _ _ (by decide), by decide⟩
 
 /-- Negative witness, finding C16-packetizer-unaligned-single-beat (dw = 16, 3-byte header `a1 b2 c3`): a
-    single-beat packet `0x2211` is emitted as `b2a1, 00c3+last` again and again and is never accepted (since the fix
-    of C04-packetizer-flush-padding-unstable the lanes above the header residue are 0 whenever `sink_d.last` is set,
-    so the truncated beat no longer shows the payload byte `11`; before that fix it was `11c3`). -/
+    single-beat packet `0x2211` is emitted as `b2a1, 11c3+last` again and again and is never accepted (the fix of
+    C04-packetizer-flush-padding-unstable zeroes the padding lanes of genuine flush beats only, not of the first copy
+    beat). -/
 example :
     let c : PkCfg := ⟨2, 3⟩
     let ins : List (In HBeat) := List.replicate 4 ⟨true, ⟨⟨0x2211, 0xc3b2a1⟩, false, true⟩, true⟩
     (packetizer c).delivered (packetizer c).init ins =
-      [⟨0xb2a1, false, false⟩, ⟨0x00c3, false, true⟩, ⟨0xb2a1, false, false⟩, ⟨0x00c3, false, true⟩] ∧
+      [⟨0xb2a1, false, false⟩, ⟨0x11c3, false, true⟩, ⟨0xb2a1, false, false⟩, ⟨0x11c3, false, true⟩] ∧
     (packetizer c).accepted (packetizer c).init ins = [] := by decide
 
 /-- Negative witness, finding C16-packetizer-unaligned-bubble: one cycle with `valid = 0` (lines showing
